@@ -124,6 +124,15 @@ def sym_sqrt(x):
             return Sym(z3.RealVal(str(r)))
         if v < 0:
             raise Unsupported('sqrt of negative constant')
+        if ENG.exact_sqrt_consts:
+            # exact algebraic definition (one memoised unknown per constant): q >= 0, q*q == v
+            key = ('sqrtc-exact', str(v))
+            if key in ENG.uf_memo:
+                return ENG.uf_memo[key]
+            q = ENG.fresh_real('sqrtc')
+            ENG.assumes.append(z3.And(q >= 0, q * q == z3.RealVal(str(Fraction(v)))))
+            ENG.uf_memo[key] = Sym(q)
+            return ENG.uf_memo[key]
         # irrational constant: rational enclosure
         s = ENG.fresh_real('sqrtc')
         f = Fraction(math.sqrt(float(v)))
